@@ -607,6 +607,43 @@ def run_ippo_cont(zoo, groups, *, training, variant="clip"):
     return trace("IPPO", f"training={training}", variant, "vector", groups, evs)
 
 
+def check_f64_bounds(seed: int):
+    """DDPG / TD3 on a Box(dtype=float64) whose bounds float32 cannot represent (0.1, 0.3, 0.7, 0.9): with large exploration noise
+    most actions saturate; every returned action must lie inside the space (gymnasium's own `contains`, on the action as returned).
+    Returns (violations, rows checked)."""
+    from agilerl.algorithms.ddpg import DDPG
+    from agilerl.algorithms.td3 import TD3
+
+    sp = spaces.Box(np.array([-0.1, 0.3, -0.7]), np.array([0.1, 0.7, 0.9]), dtype=np.float64)
+    osp = spaces.Box(-1, 1, (4,), np.float32)
+    out, n = [], 0
+    for name, cls in (("DDPG", DDPG), ("TD3", TD3)):
+        torch.manual_seed(seed + 5)
+        try:
+            ag = cls(osp, sp, net_config=net_config(), expl_noise=0.5, O_U_noise=False, share_encoders=True)
+        except AssertionError:
+            ag = cls(osp, sp, net_config=net_config(), expl_noise=0.5, O_U_noise=False, share_encoders=False)
+        for training in (True, False):
+            ag.set_training_mode(training)
+            bad = []
+            for k in range(12):
+                torch.manual_seed(seed * 100 + k)
+                np.random.seed(seed * 100 + k)
+                obs = np.random.rand(8, 4).astype(np.float32)
+                a = ag.get_action(obs)
+                a = a[0] if isinstance(a, tuple) else a
+                for row in np.asarray(a).reshape(8, -1):
+                    n += 1
+                    if not sp.contains(np.asarray(row, dtype=np.float64)):
+                        bad.append([float(x) for x in row])
+            if bad:
+                out.append({"sig": f"actionsel:{name}:training={training}:f64-bounds:vector:Box3:batched:Contains",
+                            "what": f"{name}.get_action (training={training}) on Box(low=[-0.1, 0.3, -0.7], high=[0.1, 0.7, 0.9], dtype=float64): "
+                                    f"{len(bad)} returned actions are not contained in the action space, e.g. {bad[0]}",
+                            "replay": {"kind": "f64-bounds", "alg": name, "training": training, "seed": seed}})
+    return out, n
+
+
 # =================================================================================== grid handling
 class Grid:
     """TLC's dumped cases, indexed by what they can be replayed on."""
